@@ -8,7 +8,12 @@
 (*   c = [kind : "gc"|"rs", p2 : Seq(point)   \* the matcher's own (second) set   *)
 (*        p1 : Seq(point),                     \* the points searched around       *)
 (*        rad : Seq(radius)  (length 1 = one radius, else one per p1 point),       *)
-(*        k : Int]                             \* maxmatch; <= 0 means "all"       *)
+(*        k : Int,                             \* maxmatch; <= 0 means "all"       *)
+(*        ident : BOOLEAN]  \* equal lattice points are handed over as bit-identical *)
+(*                          \* coordinates (FALSE: a pole may carry different        *)
+(*                          \* longitudes) - then "identical points match at zero    *)
+(*                          \* distance" is no rounding question, whatever the       *)
+(*                          \* radius >= 0 (d = 0 <= r)                              *)
 (* and what the real code returned is an observation                              *)
 (*   o = [err : STRING, m1, m2 : Seq(Nat) (0-based, as returned),                  *)
 (*        d : Seq([on : BOOLEAN, v : exact separation value]),                      *)
@@ -18,6 +23,13 @@
 (*   via = "file": count is the returned value, m1/m2/d what read_pairs gave back  *)
 (*   (rerr its exception class or "none"), mem1/mem2 the in-memory result of the   *)
 (*   same call on the same object.                                                 *)
+(*   hasall = TRUE (calls with a positive limit): all1/all2 is what the SAME object *)
+(*   returned for the SAME inputs with maxmatch = 0; "the k closest pairs of each    *)
+(*   group" relates the two whatever the matcher decided about pairs lying exactly  *)
+(*   on the radius (those stay unconstrained as a SET question).                    *)
+(* The result of a call is a function of the point set the matcher was BUILT from:  *)
+(* the caller overwriting its arrays afterwards (HtmMatchMC: Overwrite) changes      *)
+(* nothing - the matcher is a snapshot.                                              *)
 (*                                                                                *)
 (* The matcher is a little state machine: New(depth, p2) then any sequence of      *)
 (* calls.  Its abstract state is p2 alone - the result of a call is a function of  *)
@@ -30,7 +42,9 @@ N2(c) == Len(c.p2)
 RadOf(c, i) == IF Len(c.rad) = 1 THEN c.rad[1] ELSE c.rad[i]
 \* -1 strictly inside the radius of p1[i], 0 exactly on it (unconstrained), 1 outside
 RC(c, i, j)  == HsRadCmp(c.kind, c.p1[i], c.p2[j], RadOf(c, i))
-Must(c, i)   == {j \in 1..N2(c) : RC(c, i, j) = -1}
+\* identical points (the same lattice point, handed over bit-identically) are zero apart: within every radius
+Ident(c, i, j) == c.ident /\ c.p1[i] = c.p2[j]
+Must(c, i)   == {j \in 1..N2(c) : RC(c, i, j) = -1 \/ (RC(c, i, j) = 0 /\ Ident(c, i, j))}
 May(c, i)    == {j \in 1..N2(c) : RC(c, i, j) <= 0}
 \* -1 : p2[j1] is closer to p1[i] than p2[j2];  0 : exact tie
 SC(c, i, j1, j2) == HsSepCmp(c.kind, c.p1[i], c.p2[j1], c.p2[j2])
@@ -68,6 +82,21 @@ SepBadCls(c, o) ==
         t \in {u \in DOMAIN o.m1 :
                  ~(o.d[u].on /\ o.d[u].v = HsSep(c.kind, c.p1[o.m1[u] + 1], c.p2[o.m2[u] + 1]))}}
 
+\* with a positive limit the result is the first k of every group of the unlimited result of the same matcher on
+\* the same inputs (exact separation ties may be broken either way)
+GSeq(a1, a2, i) == LET pos == VSortSet({t \in DOMAIN a1 : a1[t] = i - 1}) IN [n \in DOMAIN pos |-> a2[pos[n]] + 1]
+AllShapeOK(c, o) == /\ Len(o.all1) = Len(o.all2)
+                    /\ \A t \in DOMAIN o.all1 : o.all1[t] \in 0..(N1(c) - 1) /\ o.all2[t] \in 0..(N2(c) - 1)
+PrefixOK(c, o) ==
+    (Limited(c) /\ o.hasall) =>
+        /\ AllShapeOK(c, o)
+        /\ \A i \in 1..N1(c) :
+              LET gl == GSeq(o.m1, o.m2, i)
+                  ga == GSeq(o.all1, o.all2, i)
+              IN /\ Len(gl) = VMin2(c.k, Len(ga))
+                 /\ \A t \in DOMAIN gl : gl[t] = ga[t] \/ SC(c, i, gl[t], ga[t]) = 0
+                 /\ VRange(gl) \subseteq VRange(ga)
+
 Tag(prefix, S) == {prefix \o "_" \o x : x \in S}
 
 PairsFailing(c, o) ==
@@ -79,6 +108,7 @@ PairsFailing(c, o) ==
          (IF LimitOK(c, o) THEN {} ELSE {"more_than_maxmatch"}) \cup
          (IF ClosestOK(c, o) THEN {} ELSE {"not_the_closest"}) \cup
          (IF SortedOK(c, o) THEN {} ELSE {"group_not_sorted"}) \cup
+         (IF PrefixOK(c, o) THEN {} ELSE {"limited_not_prefix_of_unlimited"}) \cup
          Tag("separation", SepBadCls(c, o))
 
 PairSet(a, b) == {<<a[t], b[t]>> : t \in DOMAIN a}
@@ -111,6 +141,7 @@ RefFrom(c, i) == IF i > N1(c) THEN <<>>
                  ELSE [t \in 1..Len(RefGroup(c, i)) |-> <<i - 1, RefGroup(c, i)[t] - 1>>] \o RefFrom(c, i + 1)
 ObsOfPairs(c, prs) ==
     [err |-> "none", via |-> "mem", count |-> -1, rerr |-> "none", mem1 |-> <<>>, mem2 |-> <<>>,
+     hasall |-> FALSE, all1 |-> <<>>, all2 |-> <<>>,
      m1 |-> [t \in DOMAIN prs |-> prs[t][1]], m2 |-> [t \in DOMAIN prs |-> prs[t][2]],
      d  |-> [t \in DOMAIN prs |-> [on |-> TRUE, v |-> HsSep(c.kind, c.p1[prs[t][1] + 1], c.p2[prs[t][2] + 1])]]]
 RefObs(c) == ObsOfPairs(c, RefFrom(c, 1))
